@@ -5,7 +5,7 @@ SPECIFICATION CSpec
 CONSTANTS
   Keys = {1, 2}
   Times = {1, 2}
-  BatchSizes = {1, 2}
+  BatchSizes = {1}
   DupInBatch = FALSE
   MaxPoints = 3
   MaxSnaps = 1
